@@ -1,8 +1,634 @@
-From Coq Require Import List Bool Arith QArith Qminmax.
+(** C14: geometric coherence and orientation symmetry of the layout model
+    ([Model/Layout.v]). *)
+From Coq Require Import List Bool Arith QArith Qminmax Lia Lqa.
 From SR Require Import Base.PathB Model.Recon Model.Branches Model.Layout.
 Import ListNotations.
+Local Open Scope Q_scope.
 
-Example layout_smoke :
-  layout Vertical {| pad := 4; gsp := 5; ovh := 10; mss := 12; lsp := 4 |}
-         (SNode SLeaf SLeaf) (RNode [] (RLeaf [false]) (RLeaf [true])) [(1, 1); (1, 1); (1, 1)] <> None.
-Proof. vm_compute. discriminate. Qed.
+Arguments Qplus : simpl never.
+Arguments Qminus : simpl never.
+Arguments Qopp : simpl never.
+Arguments Qdiv : simpl never.
+Arguments Qmult : simpl never.
+Arguments Qmin : simpl never.
+Arguments Qmax : simpl never.
+
+(** * Transposition (x and y exchanged) *)
+Definition tp (p : pos) : pos := (snd p, fst p).
+Definition tr (r : rect) : rect := mkR (ry r) (rx r) (rh r) (rw r).
+Definition t_entry (e : anchor * (kind * rect)) : anchor * (kind * rect) := (fst e, (fst (snd e), tr (snd (snd e)))).
+Definition t_apos (e : anchor * pos) : anchor * pos := (fst e, tp (snd e)).
+Definition t_st (st : lbstate) : lbstate := {| na := na st; ns := ns st; done := map t_entry (done st) |}.
+Definition t_slay (sl : slay) : slay := {| s_branches := map t_entry (s_branches sl); s_anchors := map t_apos (s_anchors sl) |}.
+Definition t_info (i : sinfo) : sinfo :=
+  {| i_size := tp (i_size i); i_trunk := tr (i_trunk i); i_fork := i_fork i;
+     i_lpos := tp (i_lpos i); i_rpos := tp (i_rpos i); i_lay := t_slay (i_lay i) |}.
+Fixpoint t_itree (t : itree) : itree :=
+  match t with ILeaf i => ILeaf (t_info i) | INode i l r => INode (t_info i) (t_itree l) (t_itree r) end.
+Definition t_db (d : dbranch) : dbranch :=
+  {| d_id := d_id d; d_kind := d_kind d; d_rect := tr (d_rect d);
+     d_parent := tp (d_parent d); d_left := tp (d_left d); d_right := tp (d_right d); d_child := tp (d_child d) |}.
+Definition t_sub (s : sublayout) : sublayout :=
+  {| l_rect := tr (l_rect s); l_trunk := tr (l_trunk s); l_fork := l_fork s;
+     l_anchors := map t_apos (l_anchors s); l_branches := map t_db (l_branches s) |}.
+Fixpoint t_ltree (t : ltree) : ltree :=
+  match t with LLeaf s => LLeaf (t_sub s) | LNode s l r => LNode (t_sub s) (t_ltree l) (t_ltree r) end.
+Definition swap_size (bs : branch * size) : branch * size := (fst bs, tp (snd bs)).
+
+Lemma tp_invol p : tp (tp p) = p. Proof. destruct p; reflexivity. Qed.
+Lemma tr_invol r : tr (tr r) = r. Proof. destruct r; reflexivity. Qed.
+
+(** * [_layout_branches] *)
+Lemma afind_map a l : afind a (map t_entry l) = option_map (fun v => (fst v, tr (snd v))) (afind a l).
+Proof.
+  induction l as [|[k v] l IH]; simpl; auto. destruct (anchor_eqb a k); auto.
+Qed.
+
+Lemma look_t st a : look (t_st st) a = option_map tr (look st a).
+Proof.
+  unfold look. destruct a as [k|]; simpl; auto. rewrite afind_map.
+  destruct (afind k (done st)) as [[kd r]|]; reflexivity.
+Qed.
+
+Lemma push_t st a b bb r : t_st (push st a b bb r) = push (t_st st) a b bb (tr r).
+Proof. unfold push, t_st. simpl. now rewrite map_app. Qed.
+
+Lemma step_mirror P st bs : step_H P (t_st st) (swap_size bs) = option_map t_st (step_V P st bs).
+Proof.
+  destruct bs as [b [w h]]. unfold step_H, step_V, swap_size. simpl.
+  rewrite !look_t.
+  destruct (b_kind b); simpl; try (rewrite push_t; reflexivity).
+  - destruct (look st (b_left b)) as [L|]; simpl; auto.
+    destruct (look st (b_right b)) as [R|]; simpl; auto. rewrite push_t. reflexivity.
+  - destruct (look st (b_left b)) as [C|]; simpl; auto. rewrite push_t. reflexivity.
+Qed.
+
+Lemma run_mirror P l : forall st,
+  run_steps (step_H P) (t_st st) (map swap_size l) = option_map t_st (run_steps (step_V P) st l).
+Proof.
+  induction l as [|x l IH]; intros st; simpl; auto.
+  rewrite step_mirror. destruct (step_V P st x) as [st'|]; simpl; auto.
+Qed.
+
+Lemma map_flat_map {A B C} (h : B -> C) (f : A -> list B) l :
+  map h (flat_map f l) = flat_map (fun x => map h (f x)) l.
+Proof. induction l as [|x l IH]; simpl; auto. now rewrite map_app, IH. Qed.
+Lemma flat_map_map {A B C} (f : B -> list C) (g : A -> B) l :
+  flat_map f (map g l) = flat_map (fun x => f (g x)) l.
+Proof. induction l as [|x l IH]; simpl; auto. now rewrite IH. Qed.
+
+Lemma shift_mirror P brs : shift_H P (map t_entry brs) = tp (shift_V P brs).
+Proof. unfold shift_H, shift_V. destruct brs as [|e brs]; [reflexivity|]. unfold tp. simpl. now rewrite map_map. Qed.
+
+Lemma anchors_mirror ancs brs : anchors_H ancs (map t_entry brs) = map t_apos (anchors_V ancs brs).
+Proof.
+  unfold anchors_H, anchors_V. rewrite flat_map_map, map_flat_map. apply flat_map_ext. intros e. simpl.
+  destruct (amem (fst e) ancs); reflexivity.
+Qed.
+
+Lemma shifted_mirror brs anchors sh :
+  shifted (map t_entry brs) (map t_apos anchors) (tp sh) = t_slay (shifted brs anchors sh).
+Proof. unfold shifted, t_slay. simpl. now rewrite !map_map. Qed.
+
+Lemma species_mirror P l ancs : species_H P (map swap_size l) ancs = option_map t_slay (species_V P l ancs).
+Proof.
+  unfold species_H, species_V.
+  change (init P) with (t_st (init P)) at 1. rewrite run_mirror.
+  destruct (run_steps (step_V P) (init P) l) as [st|]; simpl; auto.
+  now rewrite shift_mirror, anchors_mirror, shifted_mirror.
+Qed.
+
+(** * [_layout_subtrees] *)
+Lemma rects_of_t sl : rects_of (t_slay sl) = map tr (rects_of sl).
+Proof. unfold rects_of, t_slay. simpl. now rewrite !map_map. Qed.
+
+Lemma trunk_dims_mirror P sl :
+  trunk_dims_H P (t_slay sl) = (snd (fst (trunk_dims_V P sl)), fst (fst (trunk_dims_V P sl)), snd (trunk_dims_V P sl)).
+Proof.
+  unfold trunk_dims_H, trunk_dims_V. rewrite rects_of_t.
+  destruct (rects_of sl) as [|r rs]; [reflexivity|]. simpl. now rewrite !map_map.
+Qed.
+
+Lemma node_info_mirror P tw th fk sl L R :
+  node_info_H P th tw fk (t_slay sl) (t_info L) (t_info R) = t_info (node_info_V P tw th fk sl L R).
+Proof. reflexivity. Qed.
+
+Lemma iinfo_t t : iinfo (t_itree t) = t_info (iinfo t).
+Proof. destruct t; reflexivity. Qed.
+
+Lemma sizes_mirror P lays lays' S : (forall X, lays' X = t_slay (lays X)) ->
+  forall X, sizes_H P lays' S X = t_itree (sizes_V P lays S X).
+Proof.
+  intros E. induction S as [|l IHl r IHr]; intros X; simpl; rewrite E, trunk_dims_mirror;
+    destruct (trunk_dims_V P (lays X)) as [[tw th] fk]; simpl.
+  - reflexivity.
+  - rewrite IHl, IHr, !iinfo_t, node_info_mirror. reflexivity.
+Qed.
+
+Lemma dbranch_mirror c e : dbranch_H (tp c) (t_entry e) = t_db (dbranch_V c e).
+Proof. destruct e as [a [k r]]. unfold dbranch_H, dbranch_V. simpl. destruct k; reflexivity. Qed.
+
+Lemma place_mirror i R : place_H (t_info i) (tr R) = t_sub (place_V i R).
+Proof.
+  unfold place_H, place_V, t_sub. simpl. f_equal.
+  - rewrite !map_map. apply map_ext. intros e. reflexivity.
+  - rewrite !map_map. apply map_ext. intros e.
+    change (bottom_right (rshift (tr (i_trunk i)) (top_left (tr R)))) with (tp (bottom_right (rshift (i_trunk i) (top_left R)))).
+    apply dbranch_mirror.
+Qed.
+
+Lemma absolute_mirror t : forall R, absolute place_H (t_itree t) (tr R) = t_ltree (absolute place_V t R).
+Proof.
+  induction t as [i|i l IHl r IHr]; intros R; simpl; rewrite place_mirror; [reflexivity|].
+  rewrite !iinfo_t. f_equal.
+  - rewrite <- IHl. reflexivity.
+  - rewrite <- IHr. reflexivity.
+Qed.
+
+(** * measuring *)
+Lemma zip_nil bs : zip_sizes bs [] = (map (fun b => (b, (0, 0))) bs, []).
+Proof. induction bs as [|b bs IH]; simpl; auto. now rewrite IH. Qed.
+
+Lemma zip_mirror bs : forall sizes,
+  zip_sizes bs (map tp sizes) = (map swap_size (fst (zip_sizes bs sizes)), map tp (snd (zip_sizes bs sizes))).
+Proof.
+  induction bs as [|b bs IH]; intros sizes; [reflexivity|].
+  destruct sizes as [|s sizes].
+  - cbn [map]. rewrite !zip_nil. simpl. rewrite map_map. reflexivity.
+  - simpl. rewrite IH. destruct (zip_sizes bs sizes) as [z rest]. reflexivity.
+Qed.
+
+Definition swap_m (e : path * list (branch * size)) := (fst e, map swap_size (snd e)).
+
+Lemma measure_mirror ops order : forall sizes,
+  measure_all ops order (map tp sizes) = map swap_m (measure_all ops order sizes).
+Proof.
+  induction order as [|X order IH]; intros sizes; simpl; auto.
+  rewrite zip_mirror. destruct (zip_sizes (branches_at X ops) sizes) as [z rest]. simpl. now rewrite IH.
+Qed.
+
+Definition t_lays (l : list (path * slay)) := map (fun e => (fst e, t_slay (snd e))) l.
+
+Lemma all_species_mirror P ops m :
+  all_species (species_H P) ops (map swap_m m) = option_map t_lays (all_species (species_V P) ops m).
+Proof.
+  induction m as [|[X l] m IH]; simpl; auto.
+  destruct (run_anchors X ops []) as [fin|]; auto.
+  rewrite species_mirror, IH.
+  destruct (species_V P l _) as [sl|]; simpl; auto.
+  destruct (all_species (species_V P) ops m) as [rest|]; reflexivity.
+Qed.
+
+Lemma pfind_t X l : pfind X (t_lays l) = option_map t_slay (pfind X l).
+Proof. induction l as [|[k v] l IH]; simpl; auto. destruct (path_eqb X k); auto. Qed.
+
+(** ** mirror: the horizontal layout is the transpose of the vertical layout of the size-swapped input *)
+Theorem mirror_swapped P S r sizes :
+  layout Horizontal P S r (map tp sizes) = option_map t_ltree (layout Vertical P S r sizes).
+Proof.
+  unfold layout. destruct (all_ops S r) as [ops|]; auto.
+  rewrite measure_mirror, all_species_mirror.
+  destruct (all_species (species_V P) ops (measure_all ops (spost S) sizes)) as [lays|]; simpl; auto.
+  f_equal.
+  rewrite (sizes_mirror P (fun X => match pfind X lays with Some sl => sl | None => empty_slay end)).
+  - rewrite iinfo_t. apply (absolute_mirror _ (make_from (0, 0) (i_size (iinfo (sizes_V P _ S []))))).
+  - intros X. rewrite pfind_t. destruct (pfind X lays); reflexivity.
+Qed.
+
+Theorem mirror P S r sizes :
+  layout Horizontal P S r sizes = option_map t_ltree (layout Vertical P S r (map tp sizes)).
+Proof.
+  rewrite <- mirror_swapped. f_equal. rewrite map_map. rewrite <- (map_id sizes) at 1.
+  apply map_ext. intros a. now rewrite tp_invol.
+Qed.
+
+(** * Geometry *)
+Ltac qlra := unfold Qdiv in *; change (/ 2) with (1 # 2) in *; lra.
+
+Definition rinside (c p : rect) : Prop :=
+  rx p <= rx c /\ ry p <= ry c /\ rx c + rw c <= rx p + rw p /\ ry c + rh c <= ry p + rh p.
+(* no common interior point *)
+Definition rdisjoint (a b : rect) : Prop :=
+  rx a + rw a <= rx b \/ rx b + rw b <= rx a \/ ry a + rh a <= ry b \/ ry b + rh b <= ry a.
+
+(* the boxes of the two child species lie inside the parent's box and do not overlap *)
+Fixpoint nested (t : ltree) : Prop :=
+  match t with
+  | LLeaf _ => True
+  | LNode s l r =>
+      rinside (l_rect (linfo l)) (l_rect s) /\ rinside (l_rect (linfo r)) (l_rect s) /\
+      rdisjoint (l_rect (linfo l)) (l_rect (linfo r)) /\ nested l /\ nested r
+  end.
+
+Record nonneg_params (P : params) : Prop :=
+  { pp_pad : 0 <= pad P; pp_ovh : 0 <= ovh P; pp_mss : 0 <= mss P; pp_lsp : 0 <= lsp P }.
+Definition size_ok (s : size) : Prop := 0 <= fst s /\ 0 <= snd s.
+
+Lemma fold_min_le_init t : forall a, fold_left Qmin t a <= a.
+Proof.
+  induction t as [|x t IH]; intros a; simpl; [apply Qle_refl|].
+  eapply Qle_trans; [apply IH|apply Q.le_min_l].
+Qed.
+Lemma fold_min_le_in t : forall a x, In x t -> fold_left Qmin t a <= x.
+Proof.
+  induction t as [|y t IH]; intros a x; simpl; [tauto|]. intros [->|H].
+  - eapply Qle_trans; [apply fold_min_le_init|apply Q.le_min_r].
+  - now apply IH.
+Qed.
+Lemma list_min_le d l x : In x l -> list_min d l <= x.
+Proof.
+  destruct l as [|y t]; simpl; [tauto|]. intros [->|H]; [apply fold_min_le_init|now apply fold_min_le_in].
+Qed.
+Lemma fold_max_ge_init t : forall a, a <= fold_left Qmax t a.
+Proof.
+  induction t as [|x t IH]; intros a; simpl; [apply Qle_refl|].
+  eapply Qle_trans; [apply Q.le_max_l|apply IH].
+Qed.
+Lemma fold_max_ge_in t : forall a x, In x t -> x <= fold_left Qmax t a.
+Proof.
+  induction t as [|y t IH]; intros a x; simpl; [tauto|]. intros [->|H].
+  - eapply Qle_trans; [apply Q.le_max_r|apply fold_max_ge_init].
+  - now apply IH.
+Qed.
+Lemma list_max_ge d l x : In x l -> x <= list_max d l.
+Proof.
+  destruct l as [|y t]; simpl; [tauto|]. intros [->|H]; [apply fold_max_ge_init|now apply fold_max_ge_in].
+Qed.
+
+(** ** branch rectangles keep the measured (non-negative) sizes and end before the padding *)
+Definition wok (e : anchor * (kind * rect)) : Prop := 0 <= rw (snd (snd e)) /\ 0 <= rh (snd (snd e)).
+
+Lemma step_V_wok P st bs st' : step_V P st bs = Some st' -> size_ok (snd bs) ->
+  Forall wok (done st) -> Forall wok (done st').
+Proof.
+  destruct bs as [b [w h]]. unfold step_V, size_ok. simpl. intros E [Hw Hh] F.
+  assert (forall a c x y, Forall wok (done (push st a c b (make_from (x, y) (w, h))))) as K.
+  { intros. unfold push. simpl. apply Forall_app. split; auto. repeat constructor; simpl; auto. }
+  destruct (b_kind b); try (inversion E; subst; apply K).
+  - destruct (look st (b_left b)); [|discriminate]. destruct (look st (b_right b)); [|discriminate].
+    inversion E; subst; apply K.
+  - destruct (look st (b_left b)); [|discriminate]. inversion E; subst; apply K.
+Qed.
+
+Lemma run_V_wok P l : forall st st', run_steps (step_V P) st l = Some st' ->
+  Forall (fun bs => size_ok (snd bs)) l -> Forall wok (done st) -> Forall wok (done st').
+Proof.
+  induction l as [|x l IH]; intros st st' E F W; simpl in E.
+  - inversion E; subst; auto.
+  - destruct (step_V P st x) as [st1|] eqn:S1; [|discriminate]. inversion F; subst.
+    eapply IH; eauto. eapply step_V_wok; eauto.
+Qed.
+
+Definition rects_ok (P : params) (sl : slay) : Prop :=
+  forall r, In r (rects_of sl) -> rx r + rw r <= - pad P /\ 0 <= rw r /\ 0 <= rh r.
+
+Lemma species_V_rects P l ancs sl : species_V P l ancs = Some sl ->
+  Forall (fun bs => size_ok (snd bs)) l -> rects_ok P sl.
+Proof.
+  unfold species_V. destruct (run_steps (step_V P) (init P) l) as [st|] eqn:R; [|discriminate].
+  intros E F. inversion E; subst. clear E.
+  pose proof (run_V_wok P l _ _ R F (Forall_nil _)) as W.
+  intros r Hr. unfold rects_of, shifted in Hr. simpl in Hr. rewrite map_map in Hr. simpl in Hr.
+  apply in_map_iff in Hr as [e [<- He]]. rewrite Forall_forall in W. destruct (W e He) as [W1 W2].
+  simpl. repeat split; auto.
+  unfold shift_V. destruct (done st) as [|e0 brs] eqn:D; [destruct He|]. rewrite <- D in *. simpl.
+  assert (list_min 0 (map (fun e1 => - fst (right (snd (snd e1)))) (done st)) <= - fst (right (snd (snd e)))) as M.
+  { apply list_min_le. apply in_map_iff. eauto. }
+  unfold right in M. simpl in M. lra.
+Qed.
+
+Lemma empty_rects_ok P : rects_ok P empty_slay.
+Proof. intros r []. Qed.
+
+(** ** sizes of the sub-trees (vertical) *)
+Lemma trunk_dims_V_nonneg P sl : nonneg_params P -> rects_ok P sl ->
+  0 <= fst (fst (trunk_dims_V P sl)) /\ 0 <= snd (fst (trunk_dims_V P sl)) /\ 0 <= snd (trunk_dims_V P sl).
+Proof.
+  intros [Hp Ho Hm Hl] RO. unfold trunk_dims_V. unfold rects_ok in RO.
+  destruct (rects_of sl) as [|r0 rs] eqn:E; simpl; [repeat split; auto; apply Qle_refl|].
+  destruct (RO r0 (or_introl eq_refl)) as [A [B C]].
+  repeat split.
+  - pose proof (fold_max_ge_init (map (fun r => - rx r) rs) (- rx r0)). lra.
+  - pose proof (Q.le_max_l 0 (fold_left Qmax (map (fun r => - ry r) rs) (- ry r0))). lra.
+  - pose proof (Q.le_max_l 0 (fold_left Qmax (map (fun r => ry r + rh r) rs) (ry r0 + rh r0))). lra.
+Qed.
+
+Definition good_node (i L R : sinfo) : Prop :=
+  0 <= fst (i_lpos i) /\ 0 <= snd (i_lpos i) /\
+  fst (i_lpos i) + fst (i_size L) <= fst (i_size i) /\ snd (i_lpos i) + snd (i_size L) <= snd (i_size i) /\
+  0 <= fst (i_rpos i) /\ 0 <= snd (i_rpos i) /\
+  fst (i_rpos i) + fst (i_size R) <= fst (i_size i) /\ snd (i_rpos i) + snd (i_size R) <= snd (i_size i) /\
+  (fst (i_lpos i) + fst (i_size L) <= fst (i_rpos i) \/ snd (i_lpos i) + snd (i_size L) <= snd (i_rpos i)).
+
+Fixpoint igood (t : itree) : Prop :=
+  match t with ILeaf _ => True | INode i l r => good_node i (iinfo l) (iinfo r) /\ igood l /\ igood r end.
+
+Lemma node_info_V_good P tw th fk sl L R : nonneg_params P -> 0 <= th -> 0 <= fk ->
+  size_ok (i_size L) -> size_ok (i_size R) ->
+  good_node (node_info_V P tw th fk sl L R) L R /\ size_ok (i_size (node_info_V P tw th fk sl L R)).
+Proof.
+  intros [Hp Ho Hm Hl] Hth Hfk [L1 L2] [R1 R2]. unfold good_node, size_ok, node_info_V. simpl.
+  set (sp := Qmax (tw - (fst (i_size L) - (rx (i_trunk L) + rw (i_trunk L)) + rx (i_trunk R))) (mss P)).
+  set (m := Qmax (snd (i_size L)) (snd (i_size R))).
+  assert (mss P <= sp) by apply Q.le_max_r.
+  assert (snd (i_size L) <= m) by apply Q.le_max_l.
+  assert (snd (i_size R) <= m) by apply Q.le_max_r.
+  repeat split; lra.
+Qed.
+
+Lemma sizes_V_good P lays S : nonneg_params P -> (forall X, rects_ok P (lays X)) ->
+  forall X, size_ok (i_size (iinfo (sizes_V P lays S X))) /\ igood (sizes_V P lays S X).
+Proof.
+  intros NP RO. induction S as [|l IHl r IHr]; intros X; simpl;
+    destruct (trunk_dims_V_nonneg P (lays X) NP (RO X)) as [A [B C]];
+    destruct (trunk_dims_V P (lays X)) as [[tw th] fk]; simpl in *.
+  - split; auto. split; auto.
+  - destruct (IHl (X ++ [false])) as [SL GL]. destruct (IHr (X ++ [true])) as [SR GR].
+    destruct (node_info_V_good P tw th fk (lays X) _ _ NP B C SL SR) as [G SZ]. auto.
+Qed.
+
+(** ** absolute positions *)
+Lemma linfo_absolute place t R : (forall i R', l_rect (place i R') = R') -> l_rect (linfo (absolute place t R)) = R.
+Proof. intros HP. destruct t; simpl; apply HP. Qed.
+
+Lemma absolute_nested place t : (forall i R', l_rect (place i R') = R') -> igood t ->
+  forall R, rw R = fst (i_size (iinfo t)) -> rh R = snd (i_size (iinfo t)) -> nested (absolute place t R).
+Proof.
+  intros HP. induction t as [i|i l IHl r IHr]; intros G R EW EH; simpl; auto.
+  destruct G as [[G1 [G2 [G3 [G4 [G5 [G6 [G7 [G8 G9]]]]]]]] [GL GR]].
+  rewrite !linfo_absolute, HP by auto. simpl in EW, EH.
+  repeat split; try (apply IHl; auto); try (apply IHr; auto); unfold rinside, rdisjoint, padd; simpl; try rewrite EW; try rewrite EH; try lra.
+Qed.
+
+(** ** measured sizes are non-negative when the measurer's are *)
+Lemma zip_sizes_ok bs : forall sizes, Forall size_ok sizes ->
+  Forall (fun x => size_ok (snd x)) (fst (zip_sizes bs sizes)) /\ Forall size_ok (snd (zip_sizes bs sizes)).
+Proof.
+  induction bs as [|b bs IH]; intros sizes F; simpl; [split; auto|].
+  destruct sizes as [|s sizes].
+  - destruct (IH [] F) as [A B]. destruct (zip_sizes bs []) as [z rest]. simpl in *. split; auto.
+    constructor; auto. simpl. split; apply Qle_refl.
+  - inversion F; subst. destruct (IH sizes H2) as [A B]. destruct (zip_sizes bs sizes) as [z rest]. simpl in *. split; auto.
+Qed.
+
+Lemma measure_all_ok ops order : forall sizes, Forall size_ok sizes ->
+  Forall (fun e => Forall (fun x => size_ok (snd x)) (snd e)) (measure_all ops order sizes).
+Proof.
+  induction order as [|X order IH]; intros sizes F; simpl; auto.
+  destruct (zip_sizes_ok (branches_at X ops) sizes F) as [A B].
+  destruct (zip_sizes (branches_at X ops) sizes) as [z rest]. simpl in *. constructor; auto.
+Qed.
+
+Lemma all_species_V_rects P ops m : forall lays, all_species (species_V P) ops m = Some lays ->
+  Forall (fun e => Forall (fun x => size_ok (snd x)) (snd e)) m ->
+  forall X sl, pfind X lays = Some sl -> rects_ok P sl.
+Proof.
+  induction m as [|[Y l] m IH]; intros lays E F X sl; simpl in E.
+  - inversion E; subst. discriminate.
+  - destruct (run_anchors Y ops []) as [fin|]; [|discriminate].
+    destruct (species_V P l _) as [s0|] eqn:SV; [|discriminate].
+    destruct (all_species (species_V P) ops m) as [rest|]; [|discriminate].
+    inversion E; subst. inversion F; subst. simpl.
+    destruct (path_eqb X Y).
+    + intros K; inversion K; subst. eapply species_V_rects; eauto.
+    + eapply IH; eauto.
+Qed.
+
+Lemma place_V_rect i R : l_rect (place_V i R) = R. Proof. reflexivity. Qed.
+Lemma place_H_rect i R : l_rect (place_H i R) = R. Proof. reflexivity. Qed.
+
+Theorem nested_vertical P S r sizes t : nonneg_params P -> Forall size_ok sizes ->
+  layout Vertical P S r sizes = Some t -> nested t.
+Proof.
+  intros NP F. unfold layout. destruct (all_ops S r) as [ops|]; [|discriminate].
+  destruct (all_species (species_V P) ops (measure_all ops (spost S) sizes)) as [lays|] eqn:AS; [|discriminate].
+  intros E; inversion E; subst. clear E.
+  set (look := fun X => match pfind X lays with Some sl => sl | None => empty_slay end).
+  assert (forall X, rects_ok P (look X)) as RO.
+  { intros X. unfold look. destruct (pfind X lays) as [sl|] eqn:PF; [|apply empty_rects_ok].
+    eapply all_species_V_rects; eauto. apply measure_all_ok; auto. }
+  destruct (sizes_V_good P look S NP RO []) as [_ G].
+  apply absolute_nested; auto.
+Qed.
+
+(** ** the horizontal orientation, by the mirror law *)
+Lemma rinside_tr a b : rinside (tr a) (tr b) <-> rinside a b.
+Proof. unfold rinside, tr; simpl. tauto. Qed.
+Lemma rdisjoint_tr a b : rdisjoint (tr a) (tr b) <-> rdisjoint a b.
+Proof. unfold rdisjoint, tr; simpl. tauto. Qed.
+Lemma linfo_t t : linfo (t_ltree t) = t_sub (linfo t).
+Proof. destruct t; reflexivity. Qed.
+Lemma nested_t t : nested (t_ltree t) <-> nested t.
+Proof.
+  induction t as [s|s l IHl r IHr]; simpl; [tauto|].
+  rewrite !linfo_t. simpl. rewrite !rinside_tr, rdisjoint_tr, IHl, IHr. tauto.
+Qed.
+
+Lemma size_ok_tp sizes : Forall size_ok sizes -> Forall size_ok (map tp sizes).
+Proof. intros F. rewrite Forall_forall in *. intros s H. apply in_map_iff in H as [s0 [<- H]]. destruct (F s0 H). split; auto. Qed.
+
+Theorem nested_layout o P S r sizes t : nonneg_params P -> Forall size_ok sizes ->
+  layout o P S r sizes = Some t -> nested t.
+Proof.
+  intros NP F. destruct o; [apply nested_vertical; auto|].
+  rewrite mirror. destruct (layout Vertical P S r (map tp sizes)) as [t0|] eqn:E; [|discriminate].
+  intros K; inversion K; subst. apply nested_t. apply (nested_vertical P S r (map tp sizes) t0 NP (size_ok_tp _ F) E).
+Qed.
+
+(** * Trunks *)
+(* the trunk ends before the child boxes begin (in the direction of growth) *)
+Definition good_trunk (i : sinfo) : Prop :=
+  (ry (i_trunk i) + rh (i_trunk i) <= snd (i_lpos i) /\ ry (i_trunk i) + rh (i_trunk i) <= snd (i_rpos i)) \/
+  (rx (i_trunk i) + rw (i_trunk i) <= fst (i_lpos i) /\ rx (i_trunk i) + rw (i_trunk i) <= fst (i_rpos i)).
+Fixpoint igoodt (t : itree) : Prop :=
+  match t with ILeaf _ => True | INode i l r => good_trunk i /\ igoodt l /\ igoodt r end.
+
+Lemma node_info_V_trunk P tw th fk sl L R : nonneg_params P -> 0 <= th -> 0 <= fk ->
+  good_trunk (node_info_V P tw th fk sl L R).
+Proof.
+  intros [Hp Ho Hm Hl] Hth Hfk. unfold good_trunk, node_info_V. simpl. left.
+  set (m := Qmax (snd (i_size L)) (snd (i_size R))).
+  assert (snd (i_size L) <= m) by apply Q.le_max_l.
+  assert (snd (i_size R) <= m) by apply Q.le_max_r.
+  split; lra.
+Qed.
+
+Lemma sizes_V_goodt P lays S : nonneg_params P -> (forall X, rects_ok P (lays X)) ->
+  forall X, igoodt (sizes_V P lays S X).
+Proof.
+  intros NP RO. induction S as [|l IHl r IHr]; intros X; simpl;
+    destruct (trunk_dims_V_nonneg P (lays X) NP (RO X)) as [A [B C]];
+    destruct (trunk_dims_V P (lays X)) as [[tw th] fk]; simpl in *; auto.
+  repeat split; auto. apply node_info_V_trunk; auto.
+Qed.
+
+Fixpoint tsep (t : ltree) : Prop :=
+  match t with
+  | LLeaf _ => True
+  | LNode s l r => rdisjoint (l_trunk s) (l_rect (linfo l)) /\ rdisjoint (l_trunk s) (l_rect (linfo r)) /\ tsep l /\ tsep r
+  end.
+
+Lemma absolute_tsep place t : (forall i R', l_rect (place i R') = R') ->
+  (forall i R', l_trunk (place i R') = rshift (i_trunk i) (top_left R')) -> igoodt t ->
+  forall R, tsep (absolute place t R).
+Proof.
+  intros HP HT. induction t as [i|i l IHl r IHr]; intros G R; simpl; auto.
+  destruct G as [G [GL GR]]. rewrite !linfo_absolute, HT by auto.
+  repeat split; auto; unfold rdisjoint, padd; simpl; destruct G as [[G1 G2]|[G1 G2]]; lra.
+Qed.
+
+Lemma tsep_vertical P S r sizes t : nonneg_params P -> Forall size_ok sizes ->
+  layout Vertical P S r sizes = Some t -> tsep t.
+Proof.
+  intros NP F. unfold layout. destruct (all_ops S r) as [ops|]; [|discriminate].
+  destruct (all_species (species_V P) ops (measure_all ops (spost S) sizes)) as [lays|] eqn:AS; [|discriminate].
+  intros E; inversion E; subst. clear E.
+  set (look := fun X => match pfind X lays with Some sl => sl | None => empty_slay end).
+  assert (forall X, rects_ok P (look X)) as RO.
+  { intros X. unfold look. destruct (pfind X lays) as [sl|] eqn:PF; [|apply empty_rects_ok].
+    eapply all_species_V_rects; eauto. apply measure_all_ok; auto. }
+  apply absolute_tsep; auto. apply sizes_V_goodt; auto.
+Qed.
+
+Lemma tsep_t t : tsep (t_ltree t) <-> tsep t.
+Proof.
+  induction t as [s|s l IHl r IHr]; simpl; [tauto|].
+  rewrite !linfo_t. simpl. rewrite !rdisjoint_tr, IHl, IHr. tauto.
+Qed.
+
+Theorem tsep_layout o P S r sizes t : nonneg_params P -> Forall size_ok sizes ->
+  layout o P S r sizes = Some t -> tsep t.
+Proof.
+  intros NP F. destruct o; [apply tsep_vertical; auto|].
+  rewrite mirror. destruct (layout Vertical P S r (map tp sizes)) as [t0|] eqn:E; [|discriminate].
+  intros K; inversion K; subst. apply tsep_t. apply (tsep_vertical P S r (map tp sizes) t0 NP (size_ok_tp _ F) E).
+Qed.
+
+Lemma rdisjoint_mono a b a' b' : rdisjoint a b -> rinside a' a -> rinside b' b -> rdisjoint a' b'.
+Proof. unfold rdisjoint, rinside. lra. Qed.
+Lemma rinside_refl a : rinside a a.
+Proof. unfold rinside. lra. Qed.
+Lemma rinside_trans a b c : rinside a b -> rinside b c -> rinside a c.
+Proof. unfold rinside. lra. Qed.
+
+Lemma nested_all_inside t : nested t -> forall s, In s (flatten t) -> rinside (l_rect s) (l_rect (linfo t)).
+Proof.
+  induction t as [s0|s0 l IHl r IHr]; simpl.
+  - intros _ s [<-|[]]. apply rinside_refl.
+  - intros [I1 [I2 [_ [N1 N2]]]] s [<-|H]; [apply rinside_refl|].
+    apply in_app_iff in H as [H|H]; eapply rinside_trans; eauto.
+Qed.
+
+Lemma FOP_app {A} (R : A -> A -> Prop) l1 l2 :
+  ForallOrdPairs R l1 -> ForallOrdPairs R l2 -> (forall a b, In a l1 -> In b l2 -> R a b) ->
+  ForallOrdPairs R (l1 ++ l2).
+Proof.
+  induction 1 as [|x l1 Hx F IH]; simpl; auto. intros F2 C. constructor.
+  - apply Forall_app. split; auto. rewrite Forall_forall. intros b Hb. apply C; auto.
+  - apply IH; auto.
+Qed.
+
+(** no two trunks overlap provided every trunk lies inside its own species box *)
+Lemma trunks_disjoint_tree t : nested t -> tsep t ->
+  (forall s, In s (flatten t) -> rinside (l_trunk s) (l_rect s)) ->
+  ForallOrdPairs (fun a b => rdisjoint (l_trunk a) (l_trunk b)) (flatten t).
+Proof.
+  induction t as [s0|s0 l IHl r IHr]; simpl; intros N T I.
+  - repeat constructor.
+  - destruct N as [I1 [I2 [D [N1 N2]]]]. destruct T as [T1 [T2 [T3 T4]]].
+    assert (forall s, In s (flatten l) -> rinside (l_trunk s) (l_rect (linfo l))) as AL.
+    { intros s Hs. eapply rinside_trans; [apply I; right; apply in_app_iff; auto|]. now apply nested_all_inside. }
+    assert (forall s, In s (flatten r) -> rinside (l_trunk s) (l_rect (linfo r))) as AR.
+    { intros s Hs. eapply rinside_trans; [apply I; right; apply in_app_iff; auto|]. now apply nested_all_inside. }
+    constructor.
+    + apply Forall_app. split; rewrite Forall_forall; intros s Hs.
+      * eapply rdisjoint_mono; [exact T1|apply rinside_refl|auto].
+      * eapply rdisjoint_mono; [exact T2|apply rinside_refl|auto].
+    + apply FOP_app.
+      * apply IHl; auto. intros s Hs. apply I. right. apply in_app_iff; auto.
+      * apply IHr; auto. intros s Hs. apply I. right. apply in_app_iff; auto.
+      * intros a b Ha Hb. eapply rdisjoint_mono; [exact D|auto|auto].
+Qed.
+
+Theorem trunks_disjoint_partial o P S r sizes t : nonneg_params P -> Forall size_ok sizes ->
+  layout o P S r sizes = Some t ->
+  (forall s, In s (flatten t) -> rinside (l_trunk s) (l_rect s)) ->
+  ForallOrdPairs (fun a b => rdisjoint (l_trunk a) (l_trunk b)) (flatten t).
+Proof.
+  intros NP F E I. apply trunks_disjoint_tree; auto; [eapply nested_layout|eapply tsep_layout]; eauto.
+Qed.
+
+(** every internal species: explicit form of [nested] *)
+Fixpoint lsubtrees (t : ltree) : list ltree :=
+  t :: match t with LLeaf _ => [] | LNode _ l r => lsubtrees l ++ lsubtrees r end.
+
+Lemma nested_forall t : nested t -> forall s l r, In (LNode s l r) (lsubtrees t) ->
+  rinside (l_rect (linfo l)) (l_rect s) /\ rinside (l_rect (linfo r)) (l_rect s) /\
+  rdisjoint (l_rect (linfo l)) (l_rect (linfo r)).
+Proof.
+  induction t as [s0|s0 l0 IHl r0 IHr]; simpl.
+  - intros _ s l r [H|[]]. discriminate.
+  - intros [I1 [I2 [D [N1 N2]]]] s l r [H|H].
+    + inversion H; subst. auto.
+    + apply in_app_iff in H as [H|H]; eauto.
+Qed.
+
+Theorem child_in_parent o P S r sizes t : nonneg_params P -> Forall size_ok sizes ->
+  layout o P S r sizes = Some t ->
+  forall s l r', In (LNode s l r') (lsubtrees t) ->
+  rinside (l_rect (linfo l)) (l_rect s) /\ rinside (l_rect (linfo r')) (l_rect s).
+Proof.
+  intros NP F E s l r' H. destruct (nested_forall t (nested_layout o P S r sizes t NP F E) s l r' H) as [A [B _]]. auto.
+Qed.
+
+Theorem siblings_disjoint o P S r sizes t : nonneg_params P -> Forall size_ok sizes ->
+  layout o P S r sizes = Some t ->
+  forall s l r', In (LNode s l r') (lsubtrees t) -> rdisjoint (l_rect (linfo l)) (l_rect (linfo r')).
+Proof.
+  intros NP F E s l r' H. destruct (nested_forall t (nested_layout o P S r sizes t NP F E) s l r' H) as [_ [_ C]]. auto.
+Qed.
+
+Theorem layout_function o P S r sizes o' P' S' r' sizes' :
+  o = o' -> P = P' -> S = S' -> r = r' -> sizes = sizes' -> layout o P S r sizes = layout o' P' S' r' sizes'.
+Proof. intros; subst; reflexivity. Qed.
+
+(** * The known finding F-TRUNK-OVERLAP: the hypothesis "every trunk inside its own box" cannot be dropped *)
+Definition roverlap (a b : rect) : Prop :=
+  rx a < rx b + rw b /\ rx b < rx a + rw a /\ ry a < ry b + rh b /\ ry b < ry a + rh a.
+Lemma roverlap_not_disjoint a b : roverlap a b -> ~ rdisjoint a b.
+Proof. unfold roverlap, rdisjoint. lra. Qed.
+
+Definition default_params : params := {| pad := 4; gsp := 5; ovh := 10; mss := 12; lsp := 4 |}.
+(* species ((M1,M2)M,(E,(R1,R2)R)N)P; object (M1_0,(M2_3,(R1_1,M2_2)O0)O1)O2 with O2 -> N, O1 -> N, O0 -> R1 *)
+Definition witness_S : stree := SNode (SNode SLeaf SLeaf) (SNode SLeaf (SNode SLeaf SLeaf)).
+Definition witness_O : otree :=
+  ONode (OLeaf [false; false] []) (ONode (OLeaf [false; true] []) (ONode (OLeaf [true; true; false] []) (OLeaf [false; true] []))).
+Definition witness_r : rtree :=
+  RNode [true] (RLeaf [false; false]) (RNode [true] (RLeaf [false; true])
+        (RNode [true; true; false] (RLeaf [true; true; false]) (RLeaf [false; true]))).
+(* measured boxes, in measuring order: extant genes 100x100, 100x100, 100x1, 100x1; transfer nodes 1x1; loss nodes 100x1 *)
+Definition witness_sizes : list size :=
+  [(100, 100); (100, 100); (100, 1); (100, 1); (1, 1); (100, 1); (100, 1); (1, 1); (1, 1)].
+Definition dummy_sub : sublayout :=
+  {| l_rect := mkR 0 0 0 0; l_trunk := mkR 0 0 0 0; l_fork := 0; l_anchors := []; l_branches := [] |}.
+Definition witness_layout : ltree :=
+  Eval vm_compute in match layout Vertical default_params witness_S witness_r witness_sizes with
+                     | Some t => t | None => LLeaf dummy_sub end.
+
+Example trunk_overlap_refuted :
+  nonneg_params default_params /\ Forall size_ok witness_sizes /\
+  layout Vertical default_params witness_S witness_r witness_sizes = Some witness_layout /\
+  exists a b, nth_error (flatten witness_layout) 3 = Some a /\ nth_error (flatten witness_layout) 4 = Some b /\
+    roverlap (l_trunk a) (l_trunk b) /\ ~ rdisjoint (l_trunk a) (l_trunk b) /\
+    rinside (l_trunk a) (l_rect a) /\ ~ rinside (l_trunk b) (l_rect b).
+Proof.
+  split; [constructor; vm_compute; discriminate|].
+  split; [repeat constructor; vm_compute; discriminate|].
+  split; [vm_compute; reflexivity|].
+  eexists; eexists. split; [reflexivity|]. split; [reflexivity|].
+  assert (roverlap (l_trunk (nth 3 (flatten witness_layout) dummy_sub)) (l_trunk (nth 4 (flatten witness_layout) dummy_sub))) as OV
+    by (repeat split; vm_compute; reflexivity).
+  split; [exact OV|]. split; [apply roverlap_not_disjoint; exact OV|]. split.
+  - repeat split; vm_compute; discriminate.
+  - intros [H _]. vm_compute in H. apply H. reflexivity.
+Qed.
